@@ -4,8 +4,10 @@ import (
 	"bytes"
 	"fmt"
 	"regexp"
+	"runtime"
 	"strconv"
 	"strings"
+	"sync"
 
 	"git.defalsify.org/vise.git/asm"
 
@@ -339,7 +341,7 @@ func C16() *vk.Check {
 		Level: "exploration",
 		Rule: "the generator builds an instruction list first (so the intended instructions are known independently of the assembler) and prints it as source with random spacing/tabs, trailing comments, blank lines and \\n or \\r\\n line ends; asm.Parse output is decoded by the harness decoder and compared instruction by instruction (batch lines expanded by the table of instructions.texi). " +
 			"Tokens: symbols [a-zA-Z][a-zA-Z0-9_]* of length 1..255, special nodes, _catch, selectors {*, digits, leading zeros, letters, digit-then-letters, letters-then-digits, uppercase-initial}, numbers over all widths, both modes, batch groups of 1..6 DOWN/UP/NEXT/PREVIOUS lines at the end. Half the sources are 'clean' (only token classes no finding is recorded for), so that a new break is not masked by a known one. " +
-			"distinct = hash of source text; non-trivial = at least 2 instructions or a batch group.",
+			"Plus a concurrency leg: 2..8 clean sources are assembled at the same time through writers that yield before they copy; each must come out byte for byte as when assembled alone. distinct = hash of source text; non-trivial = at least 2 instructions or a batch group.",
 		Assumptions:    []string{"comment-only lines and a missing final newline are outside the documented grammar and are not generated", "batch lines only at the end of the source (documented MUST)", "wildcard is not used as a MOUT/MNEXT/MPREV/batch selector"},
 		MinEvaluations: 1000,
 		Shards:         func(string) int { return 16 },
@@ -348,6 +350,7 @@ func C16() *vk.Check {
 }
 
 func runC16(c *vk.Ctx) {
+	c16Concurrent(c)
 	n := c.N(20000, 1000000)
 	for i := 0; i < n; i++ {
 		if !c.Mine(i) {
@@ -378,6 +381,83 @@ func runC16(c *vk.Ctx) {
 		}
 		if sig != "" {
 			c.Violate(sig, msg, key, map[string]interface{}{"source": s.Text, "expected": codec.Strings(s.Expect)})
+		}
+	}
+}
+
+// yieldWriter follows the io.Writer contract (it copies p before returning and does not retain it) but hands the
+// processor to other goroutines first: an assembler that builds its output in shared storage shows up as a
+// program that contains pieces of another one.
+type yieldWriter struct{ b []byte }
+
+func (w *yieldWriter) Write(p []byte) (int, error) {
+	runtime.Gosched()
+	w.b = append(w.b, p...)
+	return len(p), nil
+}
+
+// c16Concurrent: several programs assembled at the same time must each come out as when assembled alone.
+func c16Concurrent(c *vk.Ctx) {
+	rounds := c.N(30, 600)
+	for i := 0; i < rounds; i++ {
+		if !c.Mine(i) {
+			continue
+		}
+		key := fmt.Sprintf("concurrent/%d", i)
+		if !c.Want(key) {
+			continue
+		}
+		r := c.RNG(key)
+		k := r.Range(2, 8)
+		srcs := make([]*c16src, k)
+		want := make([][]byte, k)
+		for j := range srcs {
+			srcs[j] = genC16(r, false)
+			w := bytes.NewBuffer(nil)
+			if _, err := asm.Parse(srcs[j].Text, w); err != nil {
+				srcs[j] = nil
+				continue
+			}
+			want[j] = append([]byte{}, w.Bytes()...)
+		}
+		c.Begin(key)
+		got := make([][]byte, k)
+		errs := make([]error, k)
+		var wg sync.WaitGroup
+		start := make(chan struct{})
+		for j := range srcs {
+			if srcs[j] == nil {
+				continue
+			}
+			wg.Add(1)
+			go func(j int) {
+				defer wg.Done()
+				<-start
+				for rep := 0; rep < 4; rep++ {
+					w := &yieldWriter{}
+					_, errs[j] = asm.Parse(srcs[j].Text, w)
+					got[j] = w.b
+					if errs[j] != nil || !bytes.Equal(got[j], want[j]) {
+						return
+					}
+				}
+			}(j)
+		}
+		close(start)
+		wg.Wait()
+		c.Eval(vk.Hash64(key), true)
+		c.Count("concurrent_rounds", 1)
+		c.Count("programs_assembled_concurrently", int64(k))
+		for j := range srcs {
+			if srcs[j] == nil {
+				continue
+			}
+			if errs[j] != nil || !bytes.Equal(got[j], want[j]) {
+				gp, _, _ := codec.Decode(got[j])
+				c.Violate("concurrent-parse-differs", fmt.Sprintf("%d programs assembled at the same time: program %d comes out as %v (err %v), alone as %v", k, j, trunc([]byte(strings.Join(codec.Strings(gp), "; ")), 200), errs[j], trunc([]byte(strings.Join(codec.Strings(srcs[j].Expect), "; ")), 200)), key,
+					map[string]interface{}{"source": srcs[j].Text})
+				break
+			}
 		}
 	}
 }
